@@ -42,6 +42,10 @@ def run(ctx):
     for tr in trs:
         meta = tr["meta"]
         if not tr["legs"]:
+            if tr["end"] == "inadmissible-initial-overlap":
+                # hard-core family: every re-seeded random initial state had overlapping cores (outside every property's quantifier)
+                ctx.count("trace-skipped:inadmissible-initial-overlap")
+                continue
             ctx.fail("C07:run-does-not-start", {"ini": meta.get("ini"), "end": tr["end"], "job": tr.get("job"),
                                                 "exception": (tr.get("exception") or "")[-1500:]},
                      "the run could not be built or raised before the first commit")
